@@ -310,7 +310,7 @@ import (
 //@   ensures[C16] err == nil ==> vmInput.GasProvided - out.GasRemaining == e.funcGasCost + e.gasConfig.StorePerByte * lsum(list(vmInput.Arguments), 0, len(vmInput.Arguments))
 //@   ensures[C17] err == nil ==> failed == old(failed)
 //@   ensures[C03] err == nil && !readFailed ==> hasRole(old(St), snd, tok, "ESDTRoleNFTCreate") && (q > 1 ==> hasRole(old(St), snd, tok, "ESDTRoleNFTAddQuantity"))
-//@   ensures[C02,C07,C15] err == nil ==> len(out.ReturnData) == 1 && seq(out.ReturnData[0]) == be(c + 1) && St[snd][Knonce(tok)] == be(c + 1)
+//@   ensures[C02,C07,C08,C15] err == nil ==> len(out.ReturnData) == 1 && seq(out.ReturnData[0]) == be(c + 1) && St[snd][Knonce(tok)] == be(c + 1)
 //@   ensures[C02,C07] err == nil ==> q > 0 && len(St[snd][Knft(tok, c + 1)]) != 0 && dVal(St[snd][Knft(tok, c + 1)]) == q && !dValNil(St[snd][Knft(tok, c + 1)])
 //@   ensures[C02,C05,C15] err == nil ==> forall(a, addr, k, bseq, !(a == snd && (k == Knft(tok, c + 1) || k == Knonce(tok))) ==> St[a][k] == old(St)[a][k])
 //@   ensures[C07,C08,C15] err == nil ==> dHasMeta(St[snd][Knft(tok, c + 1)]) && dMNonce(St[snd][Knft(tok, c + 1)]) == c + 1 && dMName(St[snd][Knft(tok, c + 1)]) == seq(vmInput.Arguments[2]) && dMCreator(St[snd][Knft(tok, c + 1)]) == snd && dMRoy(St[snd][Knft(tok, c + 1)]) <= 10000 && dMRoy(St[snd][Knft(tok, c + 1)]) == (beval(seq(vmInput.Arguments[3])) % 18446744073709551616) % 4294967296 && dMHash(St[snd][Knft(tok, c + 1)]) == seq(vmInput.Arguments[4]) && dMAttrs(St[snd][Knft(tok, c + 1)]) == seq(vmInput.Arguments[5]) && dType(St[snd][Knft(tok, c + 1)]) == 1
@@ -394,7 +394,7 @@ func lemmaConsecutiveCreates(e *esdtNFTCreate, acnt vmcommon.UserAccountHandler,
 //@   requires !isNil(acnt)
 //@   ensures faultFree ==> readFailed == old(readFailed)
 //@   ensures[C10] isErr(err, ErrInvalidArguments) ==> failed || readFailed
-//@   ensures[C02,C07,C15] err == nil ==> r == beval(St[addr(acnt)][Knonce(seq(tokenID))]) % 18446744073709551616 && readFailed == old(readFailed)
+//@   ensures[C02,C07,C08,C15] err == nil ==> r == beval(St[addr(acnt)][Knonce(seq(tokenID))]) % 18446744073709551616 && readFailed == old(readFailed)
 //@   ensures err != nil ==> readFailed
 //@   modifies readFailed
 
@@ -447,8 +447,8 @@ func lemmaConsecutiveCreates(e *esdtNFTCreate, acnt vmcommon.UserAccountHandler,
 //@   ensures[C07,C15] err == nil && seq(vmInput.CallerAddr) == ESDTSC() && dst != nxt ==> len(St[dst][Knonce(tok)]) == 0
 //@   ensures[C07,C03,C15] err == nil && !readFailed && seq(vmInput.CallerAddr) == ESDTSC() && dst != nxt && rolesNoDup(old(St), dst, tok) ==> !hasRole(St, dst, tok, "ESDTRoleNFTCreate")
 //@   ensures[C07,C10] err == nil && seq(vmInput.CallerAddr) == ESDTSC() ==> seq(out.OutputAccounts[nxt].OutputTransfers[0].Data) == ((("ESDTNFTCreateRoleTransfer" + "@") + hex(tok)) + "@") + hex(be(c))
-//@   ensures[C07,C15] err == nil && !readFailed && seq(vmInput.CallerAddr) == ESDTSC() && shardOf(nxt) == selfShard ==> St[nxt][Knonce(tok)] == be(c) && len(St[nxt][Krole(tok)]) != 0 && !labsent(dRoles(St[nxt][Krole(tok)]), "ESDTRoleNFTCreate")
-//@   ensures[C07,C15] err == nil && !readFailed && seq(vmInput.CallerAddr) != ESDTSC() ==> St[dst][Knonce(tok)] == be(beval(nxt) % 18446744073709551616) && len(St[dst][Krole(tok)]) != 0 && !labsent(dRoles(St[dst][Krole(tok)]), "ESDTRoleNFTCreate")
+//@   ensures[C02,C07,C15] err == nil && !readFailed && seq(vmInput.CallerAddr) == ESDTSC() && shardOf(nxt) == selfShard ==> St[nxt][Knonce(tok)] == be(c) && len(St[nxt][Krole(tok)]) != 0 && !labsent(dRoles(St[nxt][Krole(tok)]), "ESDTRoleNFTCreate")
+//@   ensures[C02,C07,C15] err == nil && !readFailed && seq(vmInput.CallerAddr) != ESDTSC() ==> St[dst][Knonce(tok)] == be(beval(nxt) % 18446744073709551616) && len(St[dst][Krole(tok)]) != 0 && !labsent(dRoles(St[dst][Krole(tok)]), "ESDTRoleNFTCreate")
 //@   ensures[C02,C05,C07,C15] err == nil ==> forall(a, addr, k, bseq, !((a == dst || (a == nxt && seq(vmInput.CallerAddr) == ESDTSC() && shardOf(nxt) == selfShard)) && (k == Knonce(tok) || k == Krole(tok))) ==> St[a][k] == old(St)[a][k])
 //@   modifies St, failed, readFailed, loadFailed
 
